@@ -10,6 +10,8 @@ package main
 //   wrong_key_far         decrypting with an independent key lands ≥ Q/8 away in some coefficient
 //   metadata_eq           output metadata = plaintext metadata
 //   pk_noise              pk0 + pk1·s = e with 0 < ‖e‖∞ ≤ B_e, over Q and over P
+//   decrypt_reused_receiver  Decrypt into a caller-provided, re-used plaintext of any other level: level =
+//                         min(ct.Level(), pt.Level()), value = m + e within the bound, metadata copied
 //   shallowcopy_keeps_prng  a ShallowCopy of a WithPRNG encryptor still produces compressed (degree-0)
 //                         ciphertexts that the seed holder can expand and decrypt
 //
@@ -490,4 +492,63 @@ func c03DegeneracyNegligible(s *c03Set, path string) bool {
 	}
 	lim := math.Exp2(-30)
 	return math.Pow(zero, float64(s.N)) < lim && math.Pow(coll, float64(s.N)) < lim
+}
+
+// c03DecryptReusedReceiver: Decrypt(ct, pt) into a receiver that was allocated at another level and still
+// holds junk (value rows and metadata).  sk- and pk-encryptions, NTT and coefficient domain, every ciphertext
+// level into every higher receiver level (the receiver must shrink) and every lower one (only the first
+// rows of the ciphertext are used).
+func c03DecryptReusedReceiver(c *Ctx, s *c03Set) {
+	params := s.params
+	for _, key := range []string{"sk", "pk"} {
+		var enc *rlwe.Encryptor
+		if key == "sk" {
+			enc = rlwe.NewEncryptor(params, s.sk)
+		} else {
+			enc = rlwe.NewEncryptor(params, s.pk)
+		}
+		bound := big.NewInt(int64(c03Bound(s, key)))
+		for _, ntt := range []bool{true, false} {
+			for lc := 0; lc <= s.maxL; lc++ {
+				for lr := 0; lr <= s.maxL; lr++ {
+					if lr == lc && s.maxL > 0 {
+						continue
+					}
+					pt := rlwe.NewPlaintext(params, lc)
+					*pt.MetaData = *c03RandMeta(c, s)
+					pt.IsNTT, pt.IsMontgomery = ntt, false
+					c03RandPoly(c, s, pt.Value, 0)
+					ct, err := enc.EncryptNew(pt)
+					if err != nil {
+						panic(err)
+					}
+					recv := rlwe.NewPlaintext(params, lr)
+					*recv.MetaData = *c03RandMeta(c, s)
+					c03RandPoly(c, s, recv.Value, 0)
+					args := fmt.Sprintf("%s key=%s ntt=%d lc=%d lrecv=%d seed=%d", s.hdr, c03Path(s, key), c03B2i(ntt), lc, lr, c.Seed)
+					detail := Try(func() string {
+						s.dec.Decrypt(ct, recv)
+						want := lc
+						if lr < lc {
+							want = lr
+						}
+						if recv.Level() != want || recv.Value.Level() != want {
+							return fmt.Sprintf("receiver level: pt.Level()=%d pt.Value.Level()=%d, want min(ct,pt)=%d", recv.Level(), recv.Value.Level(), want)
+						}
+						if c03MetaStr(recv.MetaData) != c03MetaStr(pt.MetaData) || recv.IsNTT != ntt || recv.IsMontgomery {
+							return "metadata of the ciphertext not copied into the receiver"
+						}
+						rg := params.RingQ().AtLevel(want)
+						qs := params.Q()[:want+1]
+						noise := c03Centered(qs, c03SubRows(qs, Canon(rg, recv.Value, ntt, false), Canon(rg, pt.Value, ntt, false)))
+						if inf := c03Inf(noise); inf.Cmp(bound) > 0 {
+							return fmt.Sprintf("noise_inf=%s (%d bits) bound=%s", inf.String(), inf.BitLen(), bound.String())
+						}
+						return ""
+					})
+					c.Probe("decrypt_reused_receiver", args, "C03-decrypt-reused-receiver", detail)
+				}
+			}
+		}
+	}
 }
